@@ -83,6 +83,10 @@ def cases(tier: str, seed: int) -> list[dict]:
             out.append({"sc": "newton", "kind": kind, "dim": dim, "et": et, "solver": "scipy"})
         for kind, dim, et in [("elastic", 2, "QUAD4"), ("thermal", 2, "TRI3"), ("probe", 2, "TRI3"), ("elastic", 3, "TETRA4"), ("beam2", 2, "SEG2"), ("weakforms", 2, "TRI6"), ("probe-unsym", 2, "QUAD4")]:
             out.append({"sc": "history", "kind": kind, "dim": dim, "et": et, "solver": "scipy"})
+        # self-equilibrated point loads (+P and -P, a force and a couple of opposite values): the entries of the right-hand side cancel
+        # exactly, its sum is 0.0, and the solution is not zero; homogeneous and non-homogeneous supports
+        for kind, dim, et in [("elastic", 2, "TRI3"), ("elastic", 3, "TETRA4"), ("thermal", 2, "QUAD4"), ("beam2", 2, "SEG2"), ("beam3", 3, "SEG3"), ("probe", 2, "TRI3")]:
+            out.append({"sc": "balanced", "kind": kind, "dim": dim, "et": et, "solver": "scipy"})
         out.append({"sc": "lsq", "kind": "phasefield", "dim": 2, "et": "TRI3", "solver": "lsq_linear"})
         out.append({"sc": "lsq", "kind": "phasefield", "dim": 2, "et": "QUAD4", "solver": "lsq_linear"})
         # a damage value prescribed on some nodes (the usual way to enter a pre-crack): the damage sub-problem is then a reduced system
@@ -237,7 +241,7 @@ def run_case(case: dict, ctx: Ctx) -> None:
         return _suite.run_suite(case, ctx, PROP)
     rng = np.random.default_rng([case["seed"], NUM, case["index"]])
     {"history": run_history, "bcprog": run_bcprog, "orphans": run_orphans, "backend": run_backend, "lagrange": run_lagrange,
-     "connection": run_connection, "joint3": run_joint3, "newton": run_newton, "lsq": run_lsq}[case["sc"]](case, ctx, rng)
+     "connection": run_connection, "joint3": run_joint3, "balanced": run_balanced, "newton": run_newton, "lsq": run_lsq}[case["sc"]](case, ctx, rng)
 
 
 # ------------------------------------------------------------------------------------------
@@ -502,6 +506,53 @@ def run_connection(case, ctx, rng):
         ctx.require("released-members-independent", float(np.abs(U2[corner[0]] - U2[corner[1]]).max()) > 1e-9 * np.abs(u2).max(), key + "/released/independent")
     ctx.describe(f"connection/{bdim}D/{et}/{theory}/{conn}", np.abs(u).max() > 0, bdim=bdim, theory=theory, conn=conn, n_lagrange=len(lag_rows),
                  unknowns_tied=sorted({bc_.unknowns[0] for bc_ in lag}))
+
+
+def run_balanced(case, ctx, rng):
+    """Loads whose nodal values cancel exactly (the right-hand side sums to 0.0 while none of its entries is zero), first with a
+    homogeneous support, then with a prescribed value whose own contribution is balanced in the same way."""
+    kind = case["kind"]
+    key = f"C04/balanced/{kind}"
+    ctx.default_key = key
+    with ctx.monitored("no-exception", key + "/raised"):
+        simu, info = _make(kind, rng, case["dim"], case["et"], bc=False)
+        if kind == "probe":
+            for g in list(simu.local):
+                Ke, _, _, Fe = simu.local[g]
+                simu.local[g] = (Ke, None, None, None)  # no body load: the point loads are the whole right-hand side
+    sh = Shadow(simu)
+    mesh = simu.mesh
+    used = gm.used_nodes(mesh)
+    free_nodes = np.setdiff1d(used, info["n0"])
+    P = float(2 ** int(rng.integers(0, 11)))  # exactly representable, +P - P == 0.0 in any order
+    nontrivial = False
+    for phase in ("homogeneous-support", "prescribed-value"):
+        with ctx.monitored("no-exception", f"{key}/{phase}/raised"):
+            with quiet():
+                simu.Bc_Init()
+                sh = Shadow(simu)
+                sh.dirichlet(info["n0"], [0.0] * sh.dof_n, sh.unknowns)
+                if phase == "prescribed-value":
+                    sh.dirichlet(info["nL"][:1], [1e-3], [sh.unknowns[0]])
+                pool = np.setdiff1d(free_nodes, info["nL"][:1])
+                if len(pool) < 2:
+                    pool = free_nodes  # (a short member: the prescribed value and a load may share the end node, other unknowns)
+                na, nb = rng.choice(pool, 2, replace=False)
+                if kind.startswith("beam") and rng.random() < 0.5:
+                    # a force and a couple of opposite values on one node
+                    simu.add_neumann(np.array([na]), [P], ["y"])
+                    simu.add_neumann(np.array([na]), [-P], ["rz"])
+                else:
+                    u0 = sh.unknowns[int(rng.integers(len(sh.unknowns) if not kind.startswith("beam") else 2))]
+                    simu.add_neumann(np.array([na]), [P], [u0])
+                    simu.add_neumann(np.array([nb]), [-P], [u0])
+                fN = simu.Bc_vector_Neumann()
+                u = simu.Solve()
+        ctx.require("loads-cancel-exactly", float(fN.sum()) == 0.0 and np.count_nonzero(fN) == 2, f"{key}/{phase}/harness-loads", total=float(fN.sum()), nonzero=int(np.count_nonzero(fN)))
+        nontrivial |= _residual_checks(ctx, simu, sh, np.asarray(u, float), f"{key}/{phase}", 1e-9)
+        ctx.require("solution-not-zero", float(np.abs(u).max()) > 0, f"{key}/{phase}/non-zero")
+        ctx.event("balanced-loads-solved")
+    ctx.describe(f"balanced/{kind}/{case['et']}", nontrivial, kind=kind, et=case["et"], P=P)
 
 
 def run_joint3(case, ctx, rng):
